@@ -164,7 +164,7 @@ def run_call(fn_obj, fn_ir, recipe, glb, script=None, leave=None, leave_at=0):
             out["ret_obj"] = res
     out["log"] = list(glb["LOG"])
     out["watch"] = {k: nrepr(v) for k, v in watch.items()}
-    out["globals"] = {k: nrepr(glb.get(k)) for k in ("G1", "G2", "GN")}
+    out["globals"] = {k: nrepr(glb.get(k)) for k in ("G1", "G2", "GN", "GK")}
     if "get_cl" in glb:
         try:
             out["globals"]["<closure>"] = nrepr(glb["get_cl"]())
